@@ -115,8 +115,12 @@ func RegistryInvariants(v *View, dump StateDump) (string, string) {
 		add(staking.NewAddress(n.EntityID), registry.StakeClaimForNode(n.ID), registry.StakeThresholdsForNode(n, nodeRuntimes(n, active, runtimes)))
 	}
 	for _, rt := range runtimes {
-		if rt.GovernanceModel == registry.GovernanceEntity {
+		switch rt.GovernanceModel {
+		case registry.GovernanceEntity:
 			add(staking.NewAddress(rt.EntityID), registry.StakeClaimForRuntime(rt.ID), registry.StakeThresholdsForRuntime(rt))
+		case registry.GovernanceRuntime:
+			// a runtime that governs itself stakes from its own account
+			add(staking.NewRuntimeAddress(rt.ID), registry.StakeClaimForRuntime(rt.ID), registry.StakeThresholdsForRuntime(rt))
 		}
 	}
 	addrs, err := v.St.Addresses(ctx)
